@@ -6,11 +6,15 @@
    It is the Coq form of the Go reference map of the test harness (/verif/harness/cmd/c11/main.go, refState), over the
    SAME operation language [op] and result type [res] as the model's [step] (KV/Model.v).
    Where the property text is silent the specification answers [Unspecified] (the harness' "tainted"): after such a
-   step the refinement theorem (KV/Refine.v, C11_refines_abstract_map) claims nothing.
+   step the refinement theorem (KV/Refine.v, C11_refines_abstract_map) claims nothing.  These are: NewBucket under a parent
+   that no longer exists, NewBucket of a bucket this transaction has already created (C11_create_twice_refuted), Put
+   through the handle of a bucket that no longer exists, the look-up of a committed bucket this transaction has deleted
+   (C11_lookup_after_delete_refuted), and DeleteBucket of a subtree deeper than the model's recursion bound.
    Reused from Model.v: the types [bytes], [op], [res], [err]; byte-string order [ble]/[blt]/[beqb], [has_prefix];
    the ordered finite map on byte strings [amap] with [m_get]/[m_put]/[m_del] (insertion keeps keys ascending);
    the generic slot helpers [set_nth]/[get_slot]/[drop_tx]; [is_valid_bucket_name] (the API's rule: non-empty, at most
-   256 bytes, no '_'); [bytes_prefix] (db.BytesPrefix, characterised by C11_bytes_prefix). *)
+   256 bytes, no '_'); [bytes_prefix] (db.BytesPrefix, characterised by C11_bytes_prefix); [delete_fuel] / [dump_fuel]
+   (the model's recursion bounds for DeleteBucket and the dump) and [path_of] (the label the dump prints for a bucket). *)
 From Coq Require Import List ZArith Bool.
 Import ListNotations.
 Require Import MW.KV.Model.
@@ -39,6 +43,48 @@ Definition entries (c : content) (p : path) : amap bytes := kv_lookup (c_kv c) p
 Definition set_entries (c : content) (p : path) (m : amap bytes) : content := mkContent (c_bk c) ((p, m) :: c_kv c).
 Definition add_bucket (c : content) (p : path) : content :=
   if has_bucket c p then c else mkContent (p :: c_bk c) (c_kv c).
+
+(* ---------- nested buckets.  [is_prefix q p]: bucket p is q or lies below q *)
+Fixpoint is_prefix (q p : path) : bool :=
+  match q, p with
+  | [], _ => true
+  | a :: q', b :: p' => beqb a b && is_prefix q' p'
+  | _ :: _, [] => false
+  end.
+(* DeleteBucket: the bucket q and everything below it disappears, buckets and entries *)
+Definition remove_tree (c : content) (q : path) : content :=
+  mkContent (filter (fun p => negb (is_prefix q p)) (c_bk c))
+            (filter (fun e : path * amap bytes => negb (is_prefix q (fst e))) (c_kv c)).
+(* the number of nesting levels that exist below q *)
+Definition height (c : content) (q : path) : nat :=
+  list_max (map (fun p => if is_prefix q p then length p - length q else 0)%nat (c_bk c)).
+(* [child_of p q] = Some n when q = p ++ [n] *)
+Fixpoint child_of (p q : path) : option bytes :=
+  match p, q with
+  | [], [n] => Some n
+  | a :: p', b :: q' => if beqb a b then child_of p' q' else None
+  | _, _ => None
+  end.
+Fixpoint dedup (l : list bytes) : list bytes :=
+  match l with
+  | [] => []
+  | x :: r => if existsb (beqb x) r then dedup r else x :: dedup r
+  end.
+(* BucketNames: the names of the buckets directly below p (p = []: the top-level buckets), each once *)
+Definition children (c : content) (p : path) : list bytes :=
+  dedup (flat_map (fun q => match child_of p q with Some n => [n] | None => [] end) (c_bk c)).
+(* the dump of the committed content: a bucket is labelled with the string "<depth>_<name1>_..._<nameDepth>" ([path_of]) *)
+Fixpoint sdump_rec (fuel : nat) (c : content) (p : path) : list (bytes * result (list (bytes * bytes))) :=
+  match fuel with
+  | O => []
+  | S f => (path_of p, Ok (entries c p)) :: flat_map (fun n => sdump_rec f c (p ++ [n])) (children c p)
+  end.
+Definition sdump (c : content) : list (bytes * result (list (bytes * bytes))) :=
+  flat_map (fun n => sdump_rec dump_fuel c [n]) (children c []).
+(* no orphans: a nested bucket's parent exists, and entries are in buckets that exist *)
+Definition cclosed (c : content) : Prop :=
+  (forall p n, has_bucket c (p ++ [n]) = true -> p <> [] -> has_bucket c p = true) /\
+  (forall p, entries c p <> [] -> has_bucket c p = true).
 
 (* ---------- iterators: the entries of the range as of creation (ascending), and what is left from the current entry on *)
 Record siter := mkSIter {
@@ -247,8 +293,58 @@ Definition spec_step (ss : sstate) (o : op) : sstate * sres :=
       | Some _ => (s_with_is ss (set_nth i None (s_is ss)), Spec ROk)
       end
   | OBytesPrefix p => let '(a, l) := bytes_prefix p in (ss, Spec (RRange a l))
-  (* not (yet) specified: nested buckets (NewBucket, Bucket, DeleteBucket, FetchBucket), bucket listings, the dump *)
-  | ODump | OTxNames _ | OFetch _ _ _ | ONew _ _ _ | OBucket _ _ _ | ODelBucket _ _ | ONames _ => (ss, Unspecified)
+  (* ---- nested buckets *)
+  (* Bucket(name) through a bucket handle: the child p ++ [name] in the transaction's content *)
+  | OBucket dst src name =>
+      match s_slot ss src with
+      | None => (ss, Spec RSkip)
+      | Some (w, p, c) => s_lookup ss w c dst (p ++ [name])
+      end
+  (* FetchBucket(meta of a handle): the same bucket, looked up in transaction w *)
+  | OFetch w dst src =>
+      match s_view ss w, get_slot src (s_bs ss) with
+      | Some c, Some (_, p) => s_lookup ss w c dst p
+      | _, _ => (ss, Spec RSkip)
+      end
+  (* NewBucket(name) through a bucket handle *)
+  | ONew dst src name =>
+      match s_slot ss src with
+      | None => (ss, Spec RSkip)
+      | Some (false, _, _) => (ss, Spec (RErr EWriteNotAllowed))
+      | Some (true, p, c) =>
+          let q := p ++ [name] in
+          if negb (is_valid_bucket_name name) then (ss, Spec (RErr EInvalidBucketName))
+          else if negb (has_bucket c p) then (ss, Unspecified)      (* created under a parent that no longer exists *)
+          else if has_bucket c q
+               then if has_bucket (s_committed ss) q then (ss, Spec (RErr EBucketExist))
+                    else (ss, Unspecified)                          (* created twice in one transaction (C11_create_twice_refuted) *)
+               else (s_with_bs (s_with_pending ss (Some (add_bucket c q))) (set_nth dst (Some (true, q)) (s_bs ss)), Spec ROk)
+      end
+  (* DeleteBucket(name): the child and everything below it goes; nil also when there is no such child.
+     The model's recursion is bounded by [delete_fuel] levels: deeper subtrees are outside the model *)
+  | ODelBucket src name =>
+      match s_slot ss src with
+      | None => (ss, Spec RSkip)
+      | Some (false, _, _) => (ss, Spec (RErr EWriteNotAllowed))
+      | Some (true, p, c) =>
+          let q := p ++ [name] in
+          if (delete_fuel <=? height c q)%nat then (ss, Unspecified)
+          else (s_with_pending ss (Some (remove_tree c q)), Spec ROk)
+      end
+  (* bucket listings (compared as sets, see [res_equiv]) *)
+  | ONames src =>
+      match s_slot ss src with
+      | None => (ss, Spec RSkip)
+      | Some (_, p, c) => (ss, Spec (RNames (children c p)))
+      end
+  | OTxNames w =>
+      match s_view ss w with
+      | None => (ss, Spec RSkip)
+      | Some c => (ss, Spec (RNames (children c [])))
+      end
+  (* the dump (a diagnostic of the harness): every committed bucket reachable from the top level, at most [dump_fuel]
+     levels deep, labelled with its path string, with its entries *)
+  | ODump => if s_isopen ss then (ss, Spec (RDump (sdump (s_committed ss)))) else (ss, Spec (RDump [([], Err EClosed)]))
   end.
 
 (* the outputs of the specification along an operation sequence, up to the first unspecified step (exclusive) *)
@@ -269,3 +365,8 @@ Fixpoint spec_exec (ss : sstate) (ops : list op) : option sstate :=
               | (_, Unspecified) => None
               end
   end.
+
+(* the invariant of the specification's own states: none of its contents has orphans (KV/Refine.v, spec_step_sinv:
+   every specified step keeps it) *)
+Definition ocl (oc : option content) : Prop := match oc with Some c => cclosed c | None => True end.
+Definition sinv (ss : sstate) : Prop := cclosed (s_committed ss) /\ ocl (s_pending ss) /\ ocl (s_snapshot ss).
